@@ -25,6 +25,7 @@
 #include <math.h>
 #include <stdlib.h>
 #include <string.h>
+#include <unistd.h>
 
 #include "../model/rankapi.h"
 
@@ -154,6 +155,13 @@ static uint64_t st_shadow[MAXTH][STATS_COUNT];
 static uint64_t st_rec[MAXTH][MAXREC][5]; /* processed, rollbacks, rolled back msgs, silent, ckpt  (+anti below) */
 static uint64_t st_rec_anti[MAXTH][MAXREC];
 static unsigned st_nrec[MAXTH];
+/* what actually happened on each thread since its previous record (independent of the core's own stats_take calls) */
+enum { O_FWD, O_RB, O_UNDONE, O_SILENT, O_CKPT, O_ANTI, O_N };
+static uint64_t occ[MAXTH][O_N];
+static uint64_t occ_rec[MAXTH][MAXREC][O_N];
+static double occ_gvt[MAXTH][MAXREC];
+static unsigned lp_hist_n[VM_MAXLP];
+static char stats_path[300];
 
 
 static struct mrec *mr_find(const struct lp_msg *p, int create)
@@ -207,11 +215,14 @@ static void h_dispatch(lp_id_t me, simtime_t now, unsigned type, const void *pl,
 		rs_count(C_RNG_CHECKED, 1);
 	}
 	vm_process_event(me, now, type, pl, size, st);
+	if(type == LP_INIT)
+		occ[th][O_FWD]++;
 	if(type == LP_INIT || type == LP_FINI)
 		return;
 	struct lp_msg *msg = (struct lp_msg *)((char *)(uintptr_t)pl - offsetof(struct lp_msg, pl));
 	struct mrec *r = mr_find(msg, 1);
 	uint64_t d = vm_full_digest(LPS[me].state_pointer);
+	occ[th][in_coast[th] ? O_SILENT : O_FWD]++;
 	if(in_coast[th]) {
 		rs_count(C_SILENT, 1);
 		/* silent re-execution must rebuild exactly the state the forward execution produced */
@@ -429,6 +440,7 @@ void vw_mpi_remote_msg_send(struct lp_msg *msg, nid_t dest)
 void vw_mpi_remote_anti_msg_send(struct lp_msg *msg, nid_t dest)
 {
 	rs_count(C_REMOTE_ANTI, 1);
+	occ[TH()][O_ANTI]++;
 	mpi_remote_anti_msg_send(msg, dest);
 }
 
@@ -510,6 +522,12 @@ void vw_fossil_lp_collect(struct lp_ctx *lp)
 	fossil_lp_collect(lp);
 	array_count_t after = array_count(lp->p.p_msgs);
 	hist_mark(lp, 1);
+	{
+		unsigned n = 0;
+		for(array_count_t i = 0; i < after; ++i)
+			n += is_msg_past(array_get_at(lp->p.p_msgs, i));
+		lp_hist_n[lp - LPS] = n;
+	}
 	array_count_t removed = before - after;
 	if(removed)
 		rs_count(C_FOSSIL_RELEASE, 1);
@@ -557,6 +575,12 @@ void vw_process_lp_init(struct lp_ctx *lp)
 
 void vw_termination_on_msg_process(struct lp_ctx *lp, simtime_t t)
 {
+	{
+		unsigned n = 0;
+		for(array_count_t i = 0; i < array_count(lp->p.p_msgs); ++i)
+			n += is_msg_past(array_get_at(lp->p.p_msgs, i));
+		lp_hist_n[lp - LPS] = n;
+	}
 	/* called at the very end of a forward process_msg(): the message is in the history now */
 	if(array_count(lp->p.p_msgs)) {
 		struct lp_msg *m = array_peek(lp->p.p_msgs);
@@ -569,6 +593,7 @@ void vw_termination_on_msg_process(struct lp_ctx *lp, simtime_t t)
 void vw_model_allocator_checkpoint_take(struct mm_state *self, array_count_t ref_i)
 {
 	rs_count(C_CKPT, 1);
+	occ[TH()][O_CKPT]++;
 	model_allocator_checkpoint_take(self, ref_i);
 }
 
@@ -580,6 +605,7 @@ array_count_t vw_model_allocator_checkpoint_restore(struct mm_state *self, array
 		rs_fail("C05 restore returned a checkpoint (%u) beyond the rollback target (%u)", (unsigned)r, (unsigned)ref_i);
 	in_coast[th] = 1;
 	rs_count(C_ROLLBACK, 1);
+	occ[th][O_RB]++;
 	return r;
 }
 
@@ -591,6 +617,14 @@ void vw_termination_on_lp_rollback(struct lp_ctx *lp, simtime_t t)
 	if(want("G") && t < gvt_last[th])
 		rs_fail("C04 rollback below the GVT: LP %llu rolled back by a message with timestamp %g, thread %d was told GVT %g",
 		    (unsigned long long)id, t, th, gvt_last[th]);
+	{
+		unsigned n = 0;
+		for(array_count_t i = 0; i < array_count(lp->p.p_msgs); ++i)
+			n += is_msg_past(array_get_at(lp->p.p_msgs, i));
+		if(lp_hist_n[id] > n)
+			occ[th][O_UNDONE] += lp_hist_n[id] - n;
+		lp_hist_n[id] = n;
+	}
 	/* the undone entries left the history (they were re-queued or annihilated) */
 	for(unsigned i = 0; i < MAXMSG; ++i)
 		if(MR[i].p && MR[i].in_hist && MR[i].alloc && MR[i].p->dest == id)
@@ -637,8 +671,11 @@ void vw_stats_on_gvt(simtime_t g)
 		st_rec[th][k][3] = st_shadow[th][STATS_MSG_SILENT];
 		st_rec[th][k][4] = st_shadow[th][STATS_CKPT];
 		st_rec_anti[th][k] = st_shadow[th][STATS_MSG_ANTI];
+		memcpy(occ_rec[th][k], occ[th], sizeof occ[th]);
+		occ_gvt[th][k] = g;
 		st_nrec[th] = k + 1;
 	}
+	memset(occ[th], 0, sizeof occ[th]);
 	memset(st_shadow[th], 0, sizeof st_shadow[th]);
 	stats_on_gvt(g);
 }
@@ -658,6 +695,7 @@ static void on_op(int kind, const volatile void *addr, unsigned size, const char
 		    (unsigned long long)after);
 	if((after & MSG_FLAG_ANTI) && !(before & MSG_FLAG_ANTI)) {
 		rs_count(C_ANTI_LOCAL, 1);
+		occ[TH()][O_ANTI]++;
 		/* where is the message at the moment its sender cancels it? */
 		if(r->queued) {
 			rs_count(C_CANCEL_IN_QUEUE, 1);
@@ -683,6 +721,127 @@ static void *ext_stopper(void *arg)
 	return NULL;
 }
 
+/* ---- S: independent reader of the documented statistics file layout (log/stats.c) + comparison with what happened ---- */
+static void check_stats_file(void)
+{
+	char fn[340];
+	snprintf(fn, sizeof fn, "%s.bin", stats_path);
+	FILE *f = fopen(fn, "rb");
+	if(!f)
+		rs_fail("C20 statistics file %s was not produced", fn);
+	static unsigned char buf[1 << 20];
+	size_t n = fread(buf, 1, sizeof buf, f), o = 0;
+	fclose(f);
+	if(!rs_param_int("keepstats", 0))
+		unlink(fn);
+#define NEED(k)                                                                                                        \
+	do {                                                                                                           \
+		if(o + (k) > n)                                                                                        \
+			rs_fail("C20 statistics file truncated at offset %zu (needs %zu more bytes, file has %zu)", o, (size_t)(k), n); \
+	} while(0)
+	NEED(2);
+	uint16_t magic;
+	memcpy(&magic, buf + o, 2);
+	o += 2;
+	if(magic != 61455)
+		rs_fail("C20 statistics file: wrong magic number %u", magic);
+	int64_t s_cnt;
+	NEED(8);
+	memcpy(&s_cnt, buf + o, 8);
+	o += 8;
+	if(s_cnt < 11 || s_cnt > 64)
+		rs_fail("C20 statistics file: implausible metric count %lld", (long long)s_cnt);
+	int idx[O_N] = {-1, -1, -1, -1, -1, -1};
+	static const char *names[O_N] = {"processed messages", "rollbacks", "rolled back messages", "silent messages", "checkpoints",
+	    "anti messages"};
+	for(int i = 0; i < s_cnt; ++i) {
+		NEED(1);
+		unsigned l = buf[o++];
+		NEED(l);
+		for(int k = 0; k < O_N; ++k)
+			if(strlen(names[k]) == l && !memcmp(names[k], buf + o, l))
+				idx[k] = i;
+		o += l;
+	}
+	for(int k = 0; k < O_N; ++k)
+		if(idx[k] < 0)
+			rs_fail("C20 statistics file: metric '%s' is not announced in the preamble", names[k]);
+	int64_t n_cnt;
+	NEED(8);
+	memcpy(&n_cnt, buf + o, 8);
+	o += 8;
+	if(n_cnt != NRANKS)
+		rs_fail("C20 statistics file announces %lld nodes, the run had %d", (long long)n_cnt, NRANKS);
+	for(int node = 0; node < n_cnt; ++node) {
+		uint64_t glob[9];
+		NEED(72);
+		memcpy(glob, buf + o, 72);
+		o += 72;
+		uint64_t t_cnt = glob[0];
+		if(t_cnt < 1 || t_cnt > 8)
+			rs_fail("C20 statistics file: node %d announces %llu threads", node, (unsigned long long)t_cnt);
+		int64_t n_siz;
+		NEED(8);
+		memcpy(&n_siz, buf + o, 8);
+		o += 8;
+		if(n_siz < 0 || n_siz % 16)
+			rs_fail("C20 statistics file: node record array size %lld is not a multiple of 16", (long long)n_siz);
+		int64_t nrec = n_siz / 16;
+		double lastg = -1;
+		for(int64_t k = 0; k < nrec; ++k) {
+			double g;
+			NEED(16);
+			memcpy(&g, buf + o, 8);
+			o += 16;
+			if(g < lastg)
+				rs_fail("C20 statistics file: GVT column decreases (%g after %g) in node record %lld", g, lastg, (long long)k);
+			lastg = g;
+			if(k < (int64_t)st_nrec[node * 8] && g != occ_gvt[node * 8][k])
+				rs_fail("C20 statistics file: node record %lld lists GVT %g, thread 0 was told %g", (long long)k, g,
+				    occ_gvt[node * 8][k]);
+		}
+		for(uint64_t t = 0; t < t_cnt; ++t) {
+			int64_t t_siz;
+			NEED(8);
+			memcpy(&t_siz, buf + o, 8);
+			o += 8;
+			if(t_siz < 0 || t_siz % (s_cnt * 8))
+				rs_fail("C20 statistics file: thread %llu record array size %lld is not a multiple of %lld", (unsigned long long)t,
+				    (long long)t_siz, (long long)(s_cnt * 8));
+			int64_t trec = t_siz / (s_cnt * 8);
+			if(trec != nrec)
+				rs_fail("C20 statistics file holds a different number of records for a thread and for its node (difference %lld): "
+					"thread %llu %lld, node %lld", (long long)(trec > nrec ? trec - nrec : nrec - trec), (unsigned long long)t,
+				    (long long)trec, (long long)nrec);
+			int th = node * 8 + (int)t;
+			if((uint64_t)trec != st_nrec[th])
+				rs_fail("C20 statistics file holds %lld records for thread %llu, the thread produced %u", (long long)trec,
+				    (unsigned long long)t, st_nrec[th]);
+			uint64_t cum_fwd = 0, cum_undone = 0;
+			for(int64_t k = 0; k < trec; ++k) {
+				uint64_t rec[64];
+				NEED(s_cnt * 8);
+				memcpy(rec, buf + o, (size_t)s_cnt * 8);
+				o += (size_t)s_cnt * 8;
+				for(int c = 0; c < O_N; ++c)
+					if(rec[idx[c]] != occ_rec[th][k][c])
+						rs_fail("C20 statistics record %lld of thread %llu reports %llu %s, %llu occurred since its previous record",
+						    (long long)k, (unsigned long long)t, (unsigned long long)rec[idx[c]], names[c],
+						    (unsigned long long)occ_rec[th][k][c]);
+				cum_fwd += rec[idx[O_FWD]];
+				cum_undone += rec[idx[O_UNDONE]];
+				if(cum_undone > cum_fwd)
+					rs_fail("C20 cumulative undone events (%llu) exceed forward executions (%llu) at record %lld of thread %llu",
+					    (unsigned long long)cum_undone, (unsigned long long)cum_fwd, (long long)k, (unsigned long long)t);
+			}
+			rs_count(C_STATS_RECORDS, (uint64_t)trec);
+		}
+	}
+	if(o != n)
+		rs_fail("C20 statistics file has %zu bytes of garbage at the end", n - o);
+#undef NEED
+}
+
 static int rank_rc[NRANKS];
 static void *rank_main(void *arg)
 {
@@ -699,7 +858,9 @@ static void *rank_main(void *arg)
 	conf.prng_seed = 4242;
 	conf.ckpt_interval = P_ckpt;
 	conf.serial = false;
-	conf.stats_file = P_stats;
+	if(P_stats)
+		snprintf(stats_path, sizeof stats_path, "%s.%d", P_stats, (int)getpid());
+	conf.stats_file = P_stats ? stats_path : NULL;
 	conf.dispatcher = h_dispatch;
 	conf.committed = vm_can_end;
 	if(RootsimInit(&conf))
@@ -792,6 +953,8 @@ static void body(void)
 	}
 	for(unsigned l = 0; l < VM.n_lps; ++l)
 		rs_obs(lp_commit_idx[l]);
+	if(P_stats && want("S"))
+		check_stats_file();
 }
 
 /* context for deadlock / livelock verdicts: who is already in the shutdown code, what is still queued */
@@ -857,7 +1020,7 @@ static const struct rs_harness H = {
 	[C_CANCEL_IN_QUEUE] = "cancelled_while_queued", [C_E_CHECKED] = "end_state_compared", [C_T_CHECKED] = "termination_checked",
 	[C_NEG_QUIESCENT] = "negative_quiescent", [C_REMOTE_SENT] = "remote_events_sent", [C_REMOTE_ANTI] = "remote_anti_sent",
 	[C_EARLY_ANTI] = "early_remote_anti", [C_CANCEL_IN_HANDS] = "cancelled_extracted_unprocessed",
-	[C_CANCEL_REQUEUED] = "cancelled_after_requeue", [C_RNG_CHECKED] = "rng_stream_checked", [C_CANCEL_PROCESSED] = "cancelled_after_processing", [C_REMOTE_ANTI_RECV] = "remote_anti_extracted", [40] = "mpi_invisible", [41] = "mpi_reordered", [42] = "mpi_collective_delayed"},
+	[C_CANCEL_REQUEUED] = "cancelled_after_requeue", [C_RNG_CHECKED] = "rng_stream_checked", [C_STATS_RECORDS] = "stats_records_compared", [C_CANCEL_PROCESSED] = "cancelled_after_processing", [C_REMOTE_ANTI_RECV] = "remote_anti_extracted", [40] = "mpi_invisible", [41] = "mpi_reordered", [42] = "mpi_collective_delayed"},
 };
 
 int main(int argc, char **argv)
